@@ -96,7 +96,7 @@ Record wf_cut (C : cut) : Prop := {
   wc_nodup : NoDup (flat C);
   wc_atoms : forall x, In x (map fst (c_atoms C)) <-> In x (flat C);
   wc_ends : forall b, In b (c_bonds C) -> In (cb_u b) (flat C) /\ In (cb_v b) (flat C) /\ cb_u b <> cb_v b;
-  wc_simple : forall b b', In b (c_bonds C) -> In b' (c_bonds C) -> same_ends b b' -> b = b';
+  wc_simple : ForallOrdPairs (fun b b' => ~ same_ends b b') (c_bonds C);   (* a simple graph: no two list entries join the same atoms *)
   wc_labels : NoDup (map cb_lab (cuts C));
   wc_digits : forall b, In b (cuts C) -> digit_of (cb_ord b) <> None }.
 
@@ -111,7 +111,7 @@ Definition wf_cutb (C : cut) : bool :=
   nodupzb (flat C)
   && forallb (fun x => zmem x (flat C)) (map fst (c_atoms C)) && forallb (fun x => zmem x (map fst (c_atoms C))) (flat C)
   && forallb (fun b => zmem (cb_u b) (flat C) && zmem (cb_v b) (flat C) && negb (Z.eqb (cb_u b) (cb_v b))) (c_bonds C)
-  && forallb (fun b => forallb (fun b' => negb (same_endsb b b') || cbond_eqb b b') (c_bonds C)) (c_bonds C)
+  && pairwise_b (fun b b' => negb (same_endsb b b')) (c_bonds C)
   && nodup_strs (map cb_lab (cuts C))
   && forallb (fun b => match digit_of (cb_ord b) with Some _ => true | None => false end) (cuts C).
 
@@ -127,6 +127,7 @@ Record tattrs_ok (C : cut) (name : pystr) (x : Z) (a : attrs) : Prop := {
   ta_bonding : aget (S "bonding") a = bonding_val (descs C x);
   ta_ez : aget (S "ez_isomer_atoms") a = None;
   ta_arom : aget (S "aromatic") a = aget (S "aromatic") (payload C x);
+  ta_rs : aget (S "rs_isomer") a = None;
   ta_payload : forall key v, aget key (payload C x) = Some v -> ~ In key reserved -> aget key a = Some v }.
 
 Definition unordered_nodup (l : list (Z * Z)) : Prop :=
